@@ -1,5 +1,6 @@
 # Copyright (c) Microsoft Corporation.
 # Licensed under the MIT License.
+from onnxscript import ir
 from onnxscript.rewriter._rewrite_rule import RewriteRule
 from onnxscript.rewriter.rules.common._broadcast_to_matmul import check_if_not_need_reshape
 
@@ -18,6 +19,33 @@ def matmul_add(op, input_a, input_b, input_c, **_):
     return op.Add(matmul, input_c)
 
 
+def _check_bias_and_reshapes(
+    context, input_a: ir.Value, input_b: ir.Value, input_c: ir.Value, shape_c: ir.Value, **_
+) -> bool:
+    # The bias is broadcast to the 2-D output [M, N] of Gemm; in the replacement it is added to the
+    # MatMul output of the final shape [..., N] instead. That is the same computation only if every
+    # dimension the bias spans is also a trailing dimension of the final shape (e.g. a bias of
+    # shape [M, N] or [M, 1] cannot be added to a [B, S, N] result when M = B * S).
+    c_shape = input_c.shape
+    shape_c_tensor = shape_c.const_value
+    if c_shape is None or shape_c_tensor is None:
+        return False
+    if any(isinstance(dim, ir.SymbolicDim) for dim in c_shape):
+        return False
+    bias_dims = list(c_shape.numpy())
+    while bias_dims and bias_dims[0] == 1:
+        bias_dims.pop(0)
+    final_shape = shape_c_tensor.numpy().tolist()
+    if len(bias_dims) > len(final_shape):
+        return False
+    for bias_dim, final_dim in zip(reversed(bias_dims), reversed(final_shape)):
+        if bias_dim not in (1, final_dim):
+            return False
+    return check_if_not_need_reshape(
+        context, input_a=input_a, input_b=input_b, shape_c=shape_c
+    )
+
+
 gemm_to_matmul_add_rule = RewriteRule(
-    reshape_gemm_reshape_pattern, matmul_add, check_if_not_need_reshape
+    reshape_gemm_reshape_pattern, matmul_add, _check_bias_and_reshapes
 )
